@@ -70,6 +70,31 @@ pub(crate) struct SyncState {
     claimed_twice: bool,
 }
 
+#[cfg(salsa_rs_salsa_verif)]
+impl SyncTable {
+    /// H7: one line per claimed key: `sync <ingredient>:<key index>:<m|t>:<waiting>:<target>:<twice>`
+    /// (`m` = owned by a thread, `t` = transferred).
+    pub(crate) fn verif_dump(&self, out: &mut Vec<String>) {
+        for shard in self.shards.iter() {
+            let syncs = shard.syncs.lock();
+            for state in syncs.iter() {
+                out.push(format!(
+                    "sync {}:{}:{}:{}:{}:{}",
+                    self.ingredient.as_u32(),
+                    state.key.index(),
+                    match state.id {
+                        SyncOwner::Thread(_) => "m",
+                        SyncOwner::Transferred => "t",
+                    },
+                    state.anyone_waiting as u8,
+                    state.is_transfer_target as u8,
+                    state.claimed_twice as u8
+                ));
+            }
+        }
+    }
+}
+
 impl SyncTable {
     pub(crate) fn new(ingredient: IngredientIndex) -> Self {
         let shard_count = max_parallelism().next_power_of_two().max(2);
